@@ -882,6 +882,31 @@ class Explorer:
                     lt = z3.ULT(a.e, b.e) if not a.signed else a.e < b.e
                     e = z3.If(lt, a.e, b.e) if short == "min" else z3.If(lt, b.e, a.e)
                     rv = BV(e, a.width, a.signed, a.taint or b.taint)
+                elif re.search(r"num::<impl u(8|16|32|64|128|size)>::(saturating|wrapping|checked)_(add|sub|mul)$|num::<impl u(8|16|32|64|128|size)>::abs_diff$", cname) \
+                        and len(args) == 2 and isinstance(args[0], BV) and isinstance(args[1], BV) and args[0].width == args[1].width:
+                    # unsigned integer methods of core, by their definitions (exact)
+                    a, b, w = args[0], args[1], args[0].width
+                    tnt = a.taint or b.taint
+                    mx = z3.BitVecVal((1 << w) - 1, w)
+                    if short == "abs_diff":
+                        rv = BV(z3.If(z3.ULT(a.e, b.e), b.e - a.e, a.e - b.e), w, False, tnt)
+                    else:
+                        kind, op = short.split("_")
+                        if op == "add":
+                            res, ovf = a.e + b.e, z3.ULT(a.e + b.e, a.e)
+                            sat = mx
+                        elif op == "sub":
+                            res, ovf = a.e - b.e, z3.ULT(a.e, b.e)
+                            sat = z3.BitVecVal(0, w)
+                        else:
+                            res, ovf = a.e * b.e, umul_overflow(a.e, b.e, w)
+                            sat = mx
+                        if kind == "wrapping":
+                            rv = BV(res, w, False, tnt)
+                        elif kind == "saturating":
+                            rv = BV(z3.If(ovf, sat, res), w, False, tnt)
+                        else:
+                            rv = Adt("Option::Some?", [BV(res, w, False, tnt)], discr=z3.If(ovf, z3.BitVecVal(0, 64), z3.BitVecVal(1, 64)))
                 elif short in ("get_record", "get_record_mut") and len(args) == 1 and isinstance(args[0], Ref):
                     # pure accessor of the trait object: same receiver -> same record object
                     rv = Ref(("record-of", args[0].obj, args[0].path), ())
